@@ -13,7 +13,9 @@ type lazyHavocRec struct {
 }
 
 func (x *Exec) onFuncEntry(fr *Frame, st *State, ctx *FuncCtx)                 {}
-func (x *Exec) onFuncExit(fr *Frame, st *State, ctx *FuncCtx, env *SpecEnv)    {}
+func (x *Exec) onFuncExit(fr *Frame, st *State, ctx *FuncCtx, env *SpecEnv) {
+	x.checkBalanced(fr, st, ctx)
+}
 func (x *Exec) onMapWrite(st *State, m MapV, key, was *Term, v Value, set bool) {}
 func (x *Exec) onMapInit(st *State, m MapV)                                     {}
 func (x *Exec) onAlloc(st *State, p PtrV)                                       {}
@@ -22,11 +24,12 @@ func (x *Exec) onPanic(fr *Frame, st *State, e ast.Node)                        
 func (x *Exec) onGo(fr *Frame, st *State, s *ast.GoStmt, pc *preparedCall) {
 	x.Abstractions["go statement: the started goroutine is not executed here"] = true
 }
-func (x *Exec) onChanOp(fr *Frame, st *State, n ast.Node, op string) {}
-
-func (x *Exec) lockModel(fr *Frame, st *State, pc *preparedCall, name string, k func(*State, []Value)) bool {
-	return false
+func (x *Exec) onChanOp(fr *Frame, st *State, n ast.Node, op string) {
+	if op == "send" || op == "recv" {
+		x.noBlock(fr, st, n, "chan-"+op)
+	}
 }
+
 
 func (x *Exec) specHook(env *SpecEnv, name string, e *SExpr) (Value, bool) { return nil, false }
 
